@@ -104,7 +104,8 @@ def rule_original_guard(repo: Repo) -> List[Ob]:
                         if defs is None:
                             defs = Defs(f.node, f.params()[0] if f.params() else None)
                         v = st.value
-                        key = f"{f.relpath}::{f.qualname}::original_loop_guard::" + ("default" if isinstance(v, ast.Call) and call_name(v) == "TrueCond" else "recovered")
+                        # keyed by class, not by method: moving the statement into a helper of the same class is the same site
+                        key = f"{f.relpath}::{f.cls.name if f.cls is not None else f.qualname}::original_loop_guard::" + ("default" if isinstance(v, ast.Call) and call_name(v) == "TrueCond" else "recovered")
                         if isinstance(v, ast.Call) and call_name(v) == "TrueCond":
                             obs.append(Ob("G2-original-guard", key, f.relpath, st.lineno, f.qualname, True, "default: guard `true`"))
                             continue
@@ -127,7 +128,7 @@ def mut_original_guard(repo: Repo) -> List[Mutant]:
         fn.body.insert(0, ast.parse("program.original_loop_guard = program.loop_body[0].condition.copy()").body[0])
         return True
     ov = mutate_module(repo, "program/transformer/constants_transformer.py", tr)
-    return [Mutant("guard-from-first-assignment", ov, "fire", "ConstantsTransformer.execute::original_loop_guard", control=True)] if ov else []
+    return [Mutant("guard-from-first-assignment", ov, "fire", "ConstantsTransformer::original_loop_guard", control=True)] if ov else []
 
 
 # ------------------------------------------------------------------ C09: after-loop arms
@@ -1114,24 +1115,30 @@ def rule_parser_helpers(repo: Repo) -> List[Ob]:
         rets = [r.value for r in walk_no_nested(sim.node) if isinstance(r, ast.Return)]
         tmp = next((nm for nm, vals in d.defs.items() if any(isinstance(v, ast.Call) and call_name(v) == "get_unique_var" for v in vals)), None)
         if len(rets) == 1 and isinstance(rets[0], ast.BinOp) and isinstance(rets[0].op, ast.Add) and isinstance(rets[0].left, ast.Name) and isinstance(rets[0].right, ast.Name) and tmp:
-            def kind(lst):
-                apps = [x for x in walk_no_nested(sim.node) if isinstance(x, ast.Call) and call_name(x) == "append" and isinstance(x.func.value, ast.Name) and x.func.value.id == lst]
-                if len(apps) != 1:
-                    return None
-                a0 = apps[0].args[0]
-                inner = a0.args[0] if isinstance(a0, ast.Call) and a0.args else a0
-                if isinstance(inner, ast.List) and len(inner.elts) == 3:
-                    first, last = src(inner.elts[0]), src(inner.elts[2])
-                    if re.search(r"\b%s\b" % tmp, first) and not re.search(r"\b%s\b" % tmp, last):
-                        return "temp"     # t_i = value_i
-                    if re.search(r"\b%s\b" % tmp, last) and not re.search(r"\b%s\b" % tmp, first):
-                        return "target"   # x_i = t_i
-                return None
-            kl, kr = kind(rets[0].left.id), kind(rets[0].right.id)
-            if kl == "temp" and kr == "target":
+            def kinds(lst):
+                apps = [x for x in walk_no_nested(sim.node) if isinstance(x, ast.Call) and call_name(x) in ("append", "insert") and isinstance(x.func.value, ast.Name) and x.func.value.id == lst]
+                out = []
+                for ap in apps:
+                    a0 = ap.args[-1]
+                    inner = a0.args[0] if isinstance(a0, ast.Call) and a0.args else a0
+                    k = None
+                    if isinstance(inner, ast.List) and len(inner.elts) == 3:
+                        first, last = src(inner.elts[0]), src(inner.elts[2])
+                        if re.search(r"\b%s\b" % tmp, first) and not re.search(r"\b%s\b" % tmp, last):
+                            k = "temp"     # t_i = value_i
+                        elif re.search(r"\b%s\b" % tmp, last) and not re.search(r"\b%s\b" % tmp, first):
+                            k = "target"   # x_i = t_i
+                        elif not re.search(r"\b%s\b" % tmp, first) and not re.search(r"\b%s\b" % tmp, last):
+                            k = "direct"   # x_i = value_i  (no temporary)
+                    out.append(k)
+                return out
+            kl, kr = kinds(rets[0].left.id), kinds(rets[0].right.id)
+            if kl and kr and all(k == "temp" for k in kl) and all(k == "target" for k in kr):
                 verdict, msg = True, "x, y = a, b  becomes  t1 = a; t2 = b; x = t1; y = t2  (all right sides read the old values)"
-            elif kl == "target" and kr == "temp":
-                verdict, msg = False, "the target assignments are emitted BEFORE the temporaries are computed: x, y = y, x reads the new x"
+            elif kl and any(k in ("target", "direct") for k in kl):
+                verdict, msg = False, "a target variable is assigned in the block that still evaluates right-hand sides: a later right-hand side of the simultaneous assignment reads the new value"
+            elif kr and any(k == "temp" for k in kr):
+                verdict, msg = False, "a right-hand side is evaluated into its temporary after target variables have been written"
     if verdict is None:
         obs.append(inconclusive("E-simult", key_s, rp, sim.node.lineno if sim else 0, "StructureTransformer._assign_simult", msg))
     else:
